@@ -15,9 +15,14 @@ Admissible(p, n, l) ==
   /\ (n # "main" => Cardinality(Present(p)) <= 1)
   /\ (l # "flat" => HasMod(p))
 
+\* How a serde derive is WRITTEN is not part of what the property quantifies over: alone (`@derive(Serialize)`), listed
+\* after other derives (`@derive(Debug, Clone, Serialize)`), on a second decorator line (`@derive(Debug)` / `@derive(Serialize)`)
+\* or on a class instead of a model - the demanded manifest is the same (no operator of Manifest reads prog.form).
+DeriveForms == {"alone", "listed", "stacked", "class"}
 Init == /\ \E p \in {q \in [Feat -> Place] : Sized(q)} :
              \E n \in Names : \E l \in Layouts :
-                Admissible(p, n, l) /\ prog = [place |-> p, name |-> n, layout |-> l]
+             \E fm \in (IF p["dser"] # "none" \/ p["dde"] # "none" THEN DeriveForms ELSE {"alone"}) :
+                Admissible(p, n, l) /\ prog = [place |-> p, name |-> n, layout |-> l, form |-> fm]
         /\ pc = "start" /\ mods = {} /\ needs = {} /\ crates = {} /\ refs = [main |-> {}, mod |-> {}]
         /\ deps = <<>> /\ pkg = [package |-> "", bin |-> ""]
 MCNext == Next \/ (Final /\ UNCHANGED vars)
@@ -45,7 +50,7 @@ Violated ==
 CaseRec ==
   LET p == prog.place
       exp == IF MustRefuse(p) THEN {} ELSE ExpectedDeps(p)
-  IN [name |-> prog.name, layout |-> prog.layout, place |-> p,
+  IN [name |-> prog.name, layout |-> prog.layout, place |-> p, form |-> prog.form,
       refused |-> MustRefuse(p), unknown |-> UnknownIn(Present(p)),
       unknown_origin |-> IF UnknownIn(Present(p)) = {} THEN "" ELSE Origin(p, "fancy_crate"),
       deps |-> exp, origin |-> [c \in {d.crate : d \in exp} |-> Origin(p, c)],
